@@ -268,6 +268,6 @@ func vfC19HeldSearch(t *testing.T, r *vfRand, trial int) {
 	for _, k := range vfSortedKeys(classes) {
 		cls = append(cls, "held-search-"+k)
 	}
-	vfCase(fmt.Sprintf("(CHeld %s %s %s)", vfC19PairList(atStart), pubsS, seenS), vfKey("held", trial, procs, n, ops),
+	vfCase(fmt.Sprintf("(XW (CHeld %s %s %s))", vfC19PairList(atStart), pubsS, seenS), vfKey("held", trial, procs, n, ops),
 		classes["replace"] || classes["drop"], append(cls, "held-search"), replay())
 }
